@@ -31,6 +31,8 @@ func main() {
 		os.Exit(lookupsyncMain(os.Args[2:]))
 	case "rawconv":
 		os.Exit(rawconvMain(os.Args[2:]))
+	case "pubsub":
+		os.Exit(pubsubMain(os.Args[2:]))
 	case "exitstorm":
 		os.Exit(exitstormMain(os.Args[2:]))
 	case "c08extra":
